@@ -14,11 +14,9 @@
 From Coq Require Import List ZArith NArith Bool Arith Lia.
 From EasyML Require Import Base.Sx Model.U64 Model.Perms Gen.Arith.
 Import ListNotations.
+From EasyML Require Import Proofs.GenTac.
 
-Tactic Notation "gen_equiv" ident(name) "by" tactic(t) :=
-  first [ solve [ t ]
-        | fail 1 "GENERATED-EQUIVALENCE-BROKEN" name
-                 ": the definition translated from the Rust source no longer equals the hand-written model" ].
+(* gen_equiv: Proofs/GenTac.v (the specific script, then the shape-independent finisher) *)
 
 (* the consumer handed over by with_each_permutation:
      |permuted| { consumer(permuted, even_swaps); even_swaps = !even_swaps; } *)
